@@ -305,6 +305,35 @@ func Group(ec *gen.ExecCase, whole Real, mode string) ([][]Posting, bool) {
 	return out, true
 }
 
+// GroupPrefix is Group for an execution that failed: the postings of the statements of the
+// longest prefix of the script that still executes (each obtained by a prefix run). ok is
+// false when the prefix runs are not consistent with each other.
+func GroupPrefix(ec *gen.ExecCase, mode string) ([][]Posting, bool) {
+	n := len(ec.Script.Stmts)
+	var out [][]Posting
+	prev := []Posting{}
+	for k := 1; k < n; k++ {
+		pc := *ec
+		pc.Script = ec.Script.Prefix(k)
+		r, _ := Run(&pc, mode)
+		if !r.OK() {
+			break
+		}
+		cur := r.Postings
+		if len(cur) < len(prev) {
+			return nil, false
+		}
+		for i := range prev {
+			if prev[i].String() != cur[i].String() {
+				return nil, false
+			}
+		}
+		out = append(out, cur[len(prev):])
+		prev = cur
+	}
+	return out, true
+}
+
 // Sums of a posting list.
 func Debits(ps []Posting) map[string]*big.Int {
 	m := map[string]*big.Int{}
